@@ -148,6 +148,9 @@ type progGen struct {
 	defs   []string
 	// names defined inside include files only: the including file may mention them, they stay unexpanded there
 	fileDefs []string
+	// include files created so far (reused: the same file included several times, by different kinds of include)
+	made      []string
+	madeWords []string
 }
 
 func (g *progGen) count(k string) { g.p.Kinds[k]++ }
@@ -200,7 +203,13 @@ func (g *progGen) includeFile(depth int, wordList bool) string {
 	for i := 0; i < n; i++ {
 		switch weighted(g.r, []int{10, 2, 2, 1}) {
 		case 0:
-			lines = append(lines, indent(g.r)+pick(g.r, []string{"foo", "bar", "baz@", "qux~", "w1", "w2", "dup", "dup", "x-y", "ab"})+pick(g.r, []string{"", "", "@", "~"}))
+			if chance(g.r, 0.06) {
+				// an entry that consists of a replacement key only: `-- @ ""` turns it into an empty line
+				lines = append(lines, pick(g.r, []string{"@", "~", "oo", "ar"}))
+				g.count("entry-is-a-suffix-key")
+			} else {
+				lines = append(lines, indent(g.r)+pick(g.r, []string{"foo", "bar", "baz@", "qux~", "w1", "w2", "dup", "dup", "x-y", "ab"})+pick(g.r, []string{"", "", "@", "~"}))
+			}
 		case 1:
 			lines = append(lines, "##! comment in include")
 		case 2:
@@ -275,13 +284,27 @@ func (g *progGen) items(depth int, inCmd bool) []string {
 			if g.o.includes {
 				kind := weighted(g.r, []int{5, 3, 3})
 				// include-except works on word lists (C06): its files carry no prefix/suffix lines
-				f := g.includeFile(1, kind == 2)
+				var f string
+				switch {
+				case kind == 2 && len(g.madeWords) > 0 && chance(g.r, 0.35):
+					f = pick(g.r, g.madeWords)
+					g.count("include-file-reused")
+				case kind != 2 && len(g.made) > 0 && chance(g.r, 0.35):
+					f = pick(g.r, g.made)
+					g.count("include-file-reused")
+				default:
+					f = g.includeFile(1, kind == 2)
+					g.made = append(g.made, f)
+					if kind == 2 {
+						g.madeWords = append(g.madeWords, f)
+					}
+				}
 				switch kind {
 				case 0:
 					lines = append(lines, ind+"##!> include "+f)
 					g.count("include")
 				case 1:
-					lines = append(lines, ind+"##!> include "+f+" -- "+pick(g.r, []string{"@ ~", "~ @", "@ \"\"", "@ ~ ~ x", "oo 00 ar AR", "@ x @ y"}))
+					lines = append(lines, ind+"##!> include "+f+" -- "+pick(g.r, []string{"@ ~", "~ @", "@ \"\"", "@ ~ ~ x", "oo 00 ar AR", "@ x @ y", "> ]", "e E", "=> X", "< L s S", "x X e \"\""}))
 					g.count("include-suffix-replacement")
 				case 2:
 					x1 := g.includeFile(0, true)
